@@ -37,6 +37,9 @@ type Conn struct {
 	readErr    error  // injected read error (returned once toClient is drained)
 	closed     bool   // client called Close
 	closedCh   chan struct{} // closed by Close: a Write waiting at the gate returns, as a write on a real socket would
+	wdeadline  time.Time     // SetWriteDeadline
+	stallN     int           // the next Write takes only this many bytes at first ...
+	stallFor   time.Duration // ... and the rest after this long (or fails with a timeout if the write deadline comes first)
 	writes     []Write
 	wbuf       []byte // bytes written by the client, not yet split into lines
 	lines      []string
@@ -100,6 +103,31 @@ func (c *Conn) Write(p []byte) (int, error) {
 		}
 	}
 	c.mu.Lock()
+	if c.stallFor > 0 && c.stallN < len(p) && !c.closed {
+		n, d, dl := c.stallN, c.stallFor, c.wdeadline
+		c.stallFor = 0
+		c.acceptLocked(p[:n])
+		c.mu.Unlock()
+		wait := d
+		timedOut := false
+		if !dl.IsZero() && time.Until(dl) < d {
+			wait, timedOut = time.Until(dl), true
+		}
+		if wait > 0 {
+			time.Sleep(wait)
+		}
+		if timedOut {
+			return n, timeoutError{}
+		}
+		c.mu.Lock()
+		p = p[n:]
+		defer func() { c.mu.Unlock() }()
+		if c.closed {
+			return n, errors.New("memconn: write on closed connection")
+		}
+		c.acceptLocked(p)
+		return n + len(p), nil
+	}
 	defer c.mu.Unlock()
 	if c.closed {
 		return 0, errors.New("memconn: write on closed connection")
@@ -108,6 +136,12 @@ func (c *Conn) Write(p []byte) (int, error) {
 	if c.writeErrAt > 0 && c.nWrites >= c.writeErrAt {
 		return 0, errors.New("memconn: injected write error")
 	}
+	c.acceptLocked(p)
+	return len(p), nil
+}
+
+// acceptLocked records bytes the client has written (c.mu held)
+func (c *Conn) acceptLocked(p []byte) {
 	now := time.Now()
 	c.writes = append(c.writes, Write{string(p), now})
 	c.wbuf = append(c.wbuf, p...)
@@ -121,7 +155,6 @@ func (c *Conn) Write(p []byte) (int, error) {
 		c.wbuf = c.wbuf[i+2:]
 	}
 	c.cond.Broadcast()
-	return len(p), nil
 }
 
 func (c *Conn) Close() error {
@@ -145,7 +178,26 @@ func (c *Conn) LocalAddr() net.Addr                { return addr("client") }
 func (c *Conn) RemoteAddr() net.Addr               { return addr(c.Addr) }
 func (c *Conn) SetDeadline(t time.Time) error      { return nil }
 func (c *Conn) SetReadDeadline(t time.Time) error  { return nil }
-func (c *Conn) SetWriteDeadline(t time.Time) error { return nil }
+func (c *Conn) SetWriteDeadline(t time.Time) error {
+	c.mu.Lock()
+	c.wdeadline = t
+	c.mu.Unlock()
+	return nil
+}
+
+type timeoutError struct{}
+
+func (timeoutError) Error() string   { return "memconn: i/o timeout" }
+func (timeoutError) Timeout() bool   { return true }
+func (timeoutError) Temporary() bool { return true }
+
+// StallNextWrite makes the next Write behave like a socket whose peer stops reading in mid-line: the first n bytes go
+// through, the rest only after d - unless a write deadline expires first, in which case Write returns (n, timeout).
+func (c *Conn) StallNextWrite(n int, d time.Duration) {
+	c.mu.Lock()
+	c.stallN, c.stallFor = n, d
+	c.mu.Unlock()
+}
 
 // ---- server side ----
 
